@@ -141,7 +141,7 @@ func runInBubble(p *Plan, mk func() []Monitor, res *Result) {
 			return false
 		}
 		lastCheck = now
-		if !opsDone() || now < 5*time.Second {
+		if !opsDone() || now < 5*time.Second || now < ms(w.lastScriptedMs())+5*time.Second {
 			return false
 		}
 		return w.AllTerminal() && w.OpsSettled()
